@@ -11,7 +11,8 @@ EXPLANATION = ("TermFlow over every public try_* method of Bump (callees inlined
                "path happens under the success fact of the acquirer, the acquirer only writes into the block it just obtained; (R3) each infallible method and its try_ sibling have "
                "the same feasible panic sites except for the out-of-memory helper, which the infallible one calls only on the Err/None edge of the shared core; (O4) termination of "
                "the halving retry: on every path of the candidate generator that yields Some, the captured size is replaced by size/2 and either size > 0 holds or a captured flag is "
-               "set to (size == 0) whose truth forces None on the next call — a lexicographic measure strictly decreases.")
+               "set to (size == 0) whose truth forces None on the next call — a lexicographic measure strictly decreases."
+               ' (R5) exact refusal of the bumping function (shared with C18.O6); (R6) every Layout::from_size_align_unchecked site in the arena is justified (an invalid Layout aborts debug builds).')
 RULE = "rule instance = (rule, entry point, site); distinct by (rule, entry, site)"
 
 # (where, what) -> reason.   `where` = crate function that owns the site (closures attributed to their parent fn)
